@@ -559,8 +559,14 @@ class Emitter:
     def cxx_class(self):
         """Subclass of yyFlexLexer: input, output, errors and yywrap go to the harness."""
         case = self.case
-        L = ["class VfLexer : public yyFlexLexer {", "public:",
-             "\tVfLexer() : yyFlexLexer() {}", "\tvirtual int yylex();",
+        L = ["#include <new>", "class VfLexer : public yyFlexLexer {", "public:",
+             "\tVfLexer() : yyFlexLexer() {}",
+             "\tVfLexer(std::istream &i, std::ostream &o) : yyFlexLexer(i, o) {}",
+             # an object may be built in any storage: what a constructor leaves unset shows up
+             "\tstatic VfLexer *vf_make(int how) { void *m = ::operator new(sizeof(VfLexer)); "
+             "memset(m, 0xA5, sizeof(VfLexer)); "
+             "if (how & 1) return new (m) VfLexer(std::cin, std::cout); return new (m) VfLexer(); }",
+             "\tvirtual int yylex();",
              "\tvirtual int LexerInput(char *buf, int max_size) { int r = vf_read_idx(%s, "
              "%s->cur_src, buf, (size_t) max_size); if (r < 0) LexerError(\"input in flex "
              "scanner failed\"); return r; }" % (C, C),
@@ -602,7 +608,7 @@ class Emitter:
         L.append("\tstatic struct vf_ctx ctx; int v, ncalls = 0, endk = 0; VfLexer *lexer;")
         L.append("\tif (argc < 3) return 93;")
         L.append("\tvf_load(&ctx, argv[1], argv[2]); vf_tls = &ctx; vf_install();")
-        L.append("\tlexer = new VfLexer();")
+        L.append("\tlexer = VfLexer::vf_make(%d);" % ((case["seed"] >> 3) & 1))
         for op in d.get("init", [("open", 0)]):
             L += self.xop_c(op, "\t", False)
         after = d.get("after", [])
@@ -686,7 +692,7 @@ class Emitter:
         # own thread, after the start barrier, so that they overlap with the other threads
         L.append("static int vf_create(int i) { %s = vf_inst[i];" % C)
         if fl.cxx:
-            L.append("\tvf_lex[i] = new VfLexer();")
+            L.append("\tvf_lex[i] = VfLexer::vf_make(i);")
             L.append("\tvf_X(vf_inst[i], \"open 0\"); vf_inst[i]->cur_src = 0; return 0; }")
         else:
             L.append("\tif (i & 1) { if (yylex_init_extra(vf_inst[i], &vf_scn[i]) != 0) return 92; }")
